@@ -91,6 +91,13 @@ pub const DEFAULT_CONDITIONAL_JUMP_PER_TARGET_FORK_LIMIT: usize = 50;
 /// culled.
 pub const DEFAULT_VALUE_SIZE_LIMIT: usize = 250;
 
+/// The maximum number of rounds that unification will run for before it gives
+/// up on evidence that it has not managed to reconcile.
+///
+/// Real contracts need a handful of rounds (the number grows with the nesting
+/// depth of the types involved, not with the size of the contract).
+pub const UNIFICATION_ROUND_LIMIT: usize = 100;
+
 /// The default number of loop iterations the extractor will wait before polling
 /// the watchdog.
 pub const DEFAULT_WATCHDOG_POLL_LOOP_ITERATIONS: usize = 100;
